@@ -332,6 +332,98 @@ def rule_rust(ctx):
         ctx.ok("R1", "satisfies_text_predicates:present", "QueryMatch::satisfies_text_predicates analysed (%d blocks)" % len(sat[0].blocks), nontrivial=False)
 
 
+# ------------------------------------------------------------------------------------------------
+# S1: arrays that are binary-searched are only ever filled in order
+# ------------------------------------------------------------------------------------------------
+ORDER_PRESERVING = {"array_insert_sorted_by", "array_insert_sorted_with", "array_clear", "array_delete", "array_erase", "array_pop", "array_init", "array_new",
+                    "array_search_sorted_by", "array_search_sorted_with", "array_get", "array_back", "array_front", "array_reserve"}
+# by-hand exceptions: (array, function, outermost macro) -> reason
+SORTED_TABLED = {
+    ("TSQuery.step_offsets", "ts_query__parse_pattern", "array_push"):
+        "appended while the pattern is parsed: the step index of each new entry is the current (only growing) number of steps, and an entry with the same index is not added twice",
+}
+
+
+def array_subject(n, fn):
+    """The array a `->size` / `->contents` / `->capacity` access refers to: 'Rec.field' for a struct field, 'fn:name' for a local."""
+    b = strip(n)
+    while isinstance(b, dict) and b.get("k") in ("un", "cast", "paren"):
+        b = strip(b.get("e"))
+    if not isinstance(b, dict):
+        return None
+    if b.get("k") == "mem" and b.get("rec"):
+        return "%s.%s" % (b["rec"], b["f"])
+    if b.get("k") == "ref" and b.get("dk") in ("local", "param"):
+        return "%s:%s" % (fn.name, b["name"])
+    return None
+
+
+def rule_sorted(ctx, F):
+    """S1: binary search is only right on a sorted array.  Every array that some function looks up with
+    array_search_sorted_* is modified only by order-preserving operations (sorted insert, removal, clearing,
+    a whole-array copy from the same field) — an append or bulk append leaves it unsorted and the lookup
+    silently misses entries (e.g. should_descend then skips repetition nodes that contain rootless matches)."""
+    searched = {}
+    mods = []
+    for fn in F.fn_list:
+        if not fn.file.startswith("lib/src") or not fn.blocks:
+            continue
+        for pt, e in fn.points():
+            ms = fn.macro(pt)
+            for n in own_walk(e):
+                k = n.get("k")
+                if "_array__search_sorted" in ms and k == "mem" and n.get("f") == "contents":
+                    a = array_subject(n["b"], fn)
+                    if a:
+                        searched.setdefault(a, set()).add(fn.name)
+                tgt = None
+                if k == "assign":
+                    l = strip(n["l"])
+                    if l.get("k") == "idx":
+                        l = strip(l["b"])
+                    if l.get("k") == "mem" and l.get("f") in ("size", "contents"):
+                        tgt = array_subject(l["b"], fn)
+                elif k == "un" and n.get("op") in ("post++", "pre++", "post--", "pre--") and strip(n["e"]).get("k") == "mem" and strip(n["e"]).get("f") == "size":
+                    tgt = array_subject(strip(n["e"])["b"], fn)
+                elif k == "call" and str(callee_name(n) or "").startswith("_array__"):
+                    for a in n.get("a", []):
+                        x = strip(a)
+                        while isinstance(x, dict) and x.get("k") in ("un", "cast"):
+                            x = strip(x.get("e"))
+                        if isinstance(x, dict) and x.get("k") == "mem" and x.get("f") in ("contents", "size"):
+                            tgt = tgt or array_subject(x["b"], fn)
+                            break
+                if tgt:
+                    src = None
+                    if k == "call" and callee_name(n) == "_array__assign":
+                        srcs = [array_subject(strip(x)["b"], fn) for a in n.get("a", []) for x in own_walk(a) if x.get("k") == "mem" and x.get("f") == "contents"]
+                        src = [x for x in srcs if x and x != tgt]
+                    mods.append((tgt, fn, pt, ms[0] if ms else "(direct store)", src))
+    ctx.analysed["binary_searched_arrays"] = sorted(searched)
+    ctx.floor("arrays looked up with array_search_sorted_*", len(searched), 4)
+    seen = set()
+    for tgt, fn, pt, outer, src in mods:
+        if tgt not in searched:
+            continue
+        key = "%s:%s:%s" % (tgt, fn.name, outer)
+        if key in seen:
+            continue
+        if outer in ORDER_PRESERVING:
+            seen.add(key)
+            ctx.ok("S1", key, "order-preserving (%s)" % outer, nontrivial=False)
+        elif outer == "array_assign" and src is not None and all(x.split(".")[-1] == tgt.split(".")[-1] and "." in x for x in src):
+            seen.add(key)
+            ctx.ok("S1", key, "whole-array copy from the same (sorted) field of another object", nontrivial=False)
+        elif (tgt, fn.name, outer) in SORTED_TABLED:
+            seen.add(key)
+            ctx.ok("S1", key, "tabled: " + SORTED_TABLED[(tgt, fn.name, outer)], nontrivial=False)
+        else:
+            seen.add(key)
+            ctx.bad("S1", key, "%s modifies `%s` with %s (%s), but %s look(s) it up by binary search: an entry added out of order is never found"
+                    % (fn.name, tgt, outer, fn.loc(pt), ", ".join(sorted(searched[tgt]))[:120]), {"function": fn.name, "site": fn.loc(pt), "array": tgt})
+    ctx.floor("modifications of binary-searched arrays examined", len(seen), 6)
+
+
 def run(ctx):
     for cfg in configs(ctx):
         ctx.config = cfg
@@ -343,6 +435,7 @@ def run(ctx):
         rule_p3(ctx, F)
         rule_p4(ctx, F)
         rule_range(ctx, F)
+        rule_sorted(ctx, F)
     rule_rust(ctx)
     return ctx.finish(
         "Pairing and field-coverage rules over query.c: every discard of a query state under capture-list-pool exhaustion is preceded by "
